@@ -88,10 +88,13 @@ package withstack
 //@ spec func psFn(s string) string
 //@ spec func psOk(s string) bool
 
+// the results are named (assumed: deterministic functions of the text); verified: an empty printed
+// stack - what a stack without frames prints as - has no source, exactly like the empty stack
+// itself on the sending side (getOneLineSourceFromPkgStack: len(st) == 0 ==> !ok)
 //@ func getOneLineSourceFromPrintedStack
-//@   props C11
-//@   trusted "naming only: the results are deterministic functions of the printed stack text"
-//@   ensures file == psFile(st) && line == psLine(st) && fn == psFn(st) && ok == psOk(st)
+//@   props C11 C15
+//@   assumes file == psFile(st) && line == psLine(st) && fn == psFn(st) && ok == psOk(st)
+//@   ensures trimSpace(st) == "" ==> !ok
 
 //@ func getOneLineSourceFromPkgStack
 //@   props C11 C15 C16
